@@ -135,6 +135,10 @@ struct Opts {
     light: bool,
     /// only lex, strict parse, both typechecking modes, eval_full and query
     lean: bool,
+    /// (with lean) only walk typechecking and eval_full: the error matrix
+    errs: bool,
+    /// (with errs) stop after walk typechecking: static type errors
+    tconly: bool,
 }
 
 /// Run one stage on its own big-stack thread under catch_unwind.  The closure returns the stage
@@ -221,9 +225,15 @@ fn render<E: IntoDiagnostics>(rep: &mut Report, at: &str, files: &mut Files, err
             // the text renderer (codespan) – separately, so that a span finding is not masked
             for d in diags {
                 let mut f3 = files2.clone();
+                let d2 = d.clone();
                 let r = catch_unwind(AssertUnwindSafe(|| report_as_str(&mut f3, d, ColorOpt::Never)));
                 if let Err(p) = r {
                     rep.finding("panic", &format!("{name}:text"), panic_text(p));
+                }
+                let mut f4 = files2.clone();
+                let r = catch_unwind(AssertUnwindSafe(|| report_as_str(&mut f4, d2, ColorOpt::Always)));
+                if let Err(p) = r {
+                    rep.finding("panic", &format!("{name}:colour"), panic_text(p));
                 }
             }
             n
@@ -347,6 +357,42 @@ fn lexerr_ranges(e: &LexicalError) -> Vec<(usize, usize)> {
         (_, [a, b, c, d]) => vec![(*a, *b), (*c, *d)],
         _ => vec![],
     }
+}
+
+/// The printer / parser law error rendering relies on (core/src/error/mod.rs blame_error::path_span
+/// pretty-prints a position-less type with the runtime printer and parses it back with
+/// FixedTypeParser ... .unwrap()): for a type `src`, parse -> runtime type -> print -> parse must
+/// succeed, and printing the re-parsed type gives the same text.  `None` = `src` is not a type.
+fn type_law(src: &str) -> Option<Result<usize, String>> {
+    use nickel_lang_core::parser::ErrorTolerantParserCompat;
+    let mut files = Files::empty();
+    let id = files.add("type.ncl", src);
+    let mut pos_table = nickel_lang_core::position::PosTable::new();
+    let ty = FixedTypeParser::new().parse_strict_compat(&mut pos_table, id, Lexer::new(src)).ok()?;
+    let printed = format!("{ty}");
+    // the constructor at the root of the type (names the class of a failure)
+    let kind: String = format!("{:?}", ty.typ).chars().take_while(|c| c.is_alphanumeric()).collect();
+    let id2 = files.add("<printed type>", printed.as_str());
+    let res: Result<usize, String> = 
+        match FixedTypeParser::new().parse_tolerant_compat(&mut pos_table, id2, Lexer::new(&printed)) {
+            Err(_) => Err(format!("the printed type does not parse back: {}", printed.chars().take(200).collect::<String>())),
+            Ok((_, errs)) if !errs.no_errors() => {
+                Err(format!("the printed type parses back with {} error(s): {}", errs.errors.len(), printed.chars().take(200).collect::<String>()))
+            }
+            Ok((ty2, _)) => {
+                let printed2 = format!("{ty2}");
+                if printed2 == printed {
+                    Ok(printed.len())
+                } else {
+                    Err(format!(
+                        "printing is not stable under re-parsing: {} / {}",
+                        printed.chars().take(120).collect::<String>(),
+                        printed2.chars().take(120).collect::<String>()
+                    ))
+                }
+            }
+        };
+    Some(res.map_err(|m| format!("[{kind}] {m}")))
 }
 
 fn lex_stage(src: &str, rep: &mut Report) -> String {
@@ -533,7 +579,17 @@ fn run_ncl(bytes: Arc<Vec<u8>>, o: &Opts) -> Report {
                     // (printing a deeply indented type is quadratic in the nesting depth: only
                     // print what comes from small inputs)
                     let n = if src.len() <= 20_000 { format!("{t}").len() } else { 0 };
-                    outs.push(format!("type=ok{n}"))
+                    outs.push(format!("type=ok{n}"));
+                    if src.len() <= 20_000 {
+                        // (an arbitrary *term* in type position is the business of the
+                        // printer / parser round trip of terms, property C14: only genuine type
+                        // constructors here; the generated law cases cover record contracts)
+                        if let Some(Err(msg)) = type_law(&src) {
+                            if !msg.starts_with("[Contract]") {
+                                rep.finding("typelaw", "parse_other:type", msg);
+                            }
+                        }
+                    }
                 }
                 Err(e) => {
                     outs.push(format!("type=err{}", e.errors.len()));
@@ -588,16 +644,21 @@ fn run_ncl(bytes: Arc<Vec<u8>>, o: &Opts) -> Report {
         Ok(format!("ok:{a}:{}", out.len()))
     });
     }
+    if !o.errs {
     prog_stage(&mut rep, o, "typecheck_strict", &bytes, InputFormat::Nickel, move |prog, _rep| {
         prog.typecheck(TypecheckMode::Enforce)?;
         Ok("ok".into())
     });
+    }
     prog_stage(&mut rep, o, "typecheck_walk", &bytes, InputFormat::Nickel, move |prog, _rep| {
         prog.typecheck(TypecheckMode::Walk)?;
         Ok("ok".into())
     });
     // (the stages that may legitimately run out of budget come after the ones that may not)
     // the Program-level path (parse error rendering with the stdlib files around, or evaluation)
+    if o.tconly {
+        return rep;
+    }
     if o.lean {
         // the cross-product programs: both typechecking modes above, full evaluation with
         // pretty-printing of the result, and query
@@ -608,6 +669,7 @@ fn run_ncl(bytes: Arc<Vec<u8>>, o: &Opts) -> Report {
             let s = format!("{v}");
             Ok(format!("ok:pretty={}", s.len()))
         });
+        if !o.errs {
         prog_stage(&mut rep, o, "query", &bytes, InputFormat::Nickel, move |prog, _rep| {
             nickel_lang_core::verif_hooks::set_fuel(fuel);
             let f = prog.query()?;
@@ -615,6 +677,7 @@ fn run_ncl(bytes: Arc<Vec<u8>>, o: &Opts) -> Report {
             let shown = f.value.as_ref().map(|v| v.pretty_print_cap(80).len()).unwrap_or(0);
             Ok(format!("ok:value={shown}"))
         });
+        }
         return rep;
     }
     let evaled = prog_stage(&mut rep, o, "eval", &bytes, InputFormat::Nickel, move |prog, _rep| {
@@ -760,7 +823,7 @@ fn parse_case(line: &str) -> Option<(InputFormat, Opts, Vec<u8>)> {
         "text" => InputFormat::Text,
         _ => return None,
     };
-    let mut o = Opts { fuel: 400_000, stack_mb: 256, light: false, lean: false };
+    let mut o = Opts { fuel: 400_000, stack_mb: 256, light: false, lean: false, errs: false, tconly: false };
     for f in it {
         if let Some(n) = f.strip_prefix("fuel=") {
             o.fuel = n.parse().ok()?;
@@ -770,6 +833,13 @@ fn parse_case(line: &str) -> Option<(InputFormat, Opts, Vec<u8>)> {
             o.light = true;
         } else if f == "lean" {
             o.lean = true;
+        } else if f == "errs" {
+            o.lean = true;
+            o.errs = true;
+        } else if f == "tcerrs" {
+            o.lean = true;
+            o.errs = true;
+            o.tconly = true;
         }
     }
     Some((fmt, o, unhex(hex)))
@@ -1135,6 +1205,25 @@ fn main() {
                 let bytes = unhex(&line);
                 let r = match String::from_utf8(bytes) {
                     Ok(s) => catch_unwind(AssertUnwindSafe(|| lextrace(&s))).unwrap_or_else(|p| format!("PANIC {}", panic_text(p))),
+                    Err(_) => "NOT-UTF8".into(),
+                };
+                writeln!(out, "{r}").unwrap();
+            }
+        }
+        Some("typelaw") => {
+            install_hook();
+            let stdin = std::io::stdin();
+            let stdout = std::io::stdout();
+            let mut out = std::io::BufWriter::new(stdout.lock());
+            for line in stdin.lock().lines() {
+                let line = line.unwrap();
+                let r = match String::from_utf8(unhex(&line)) {
+                    Ok(s) => match catch_unwind(AssertUnwindSafe(|| type_law(&s))) {
+                        Ok(None) => "NOTYPE".to_string(),
+                        Ok(Some(Ok(n))) => format!("OK {n}"),
+                        Ok(Some(Err(m))) => format!("FAIL {}", m.replace('\n', " ")),
+                        Err(p) => format!("PANIC {}", panic_text(p).replace('\n', " ")),
+                    },
                     Err(_) => "NOT-UTF8".into(),
                 };
                 writeln!(out, "{r}").unwrap();
